@@ -614,3 +614,241 @@ Proof.
           | eexists; split; [cbn [w_log do_rmtree do_remove]; rewrite <- ?app_assoc; reflexivity
                             | repeat constructor; exact I] ].
 Qed.
+
+(* ---- histories: constructor, then reopen / close calls on one Filer ---- *)
+Definition tmproot (c : config) : path := dirname (c_tmp c).
+Definition unrelated (a b : path) : Prop := ~ prefix a b /\ ~ prefix b a.
+
+(* head, alt and the temp root (and everything above them) exist and none of
+   the three lies at or below another *)
+Record env_all (c : config) (w : world) : Prop := {
+  ea_head : forall q, prefix q (c_head c) -> exists_ (w_fs w) q = true;
+  ea_alt : forall q, prefix q (c_alt c) -> exists_ (w_fs w) q = true;
+  ea_tmp : forall q, prefix q (tmproot c) -> exists_ (w_fs w) q = true;
+  ea_ha : unrelated (c_head c) (c_alt c);
+  ea_ht : unrelated (c_head c) (tmproot c);
+  ea_at : unrelated (c_alt c) (tmproot c) }.
+
+Definition is_root (c : config) (q : path) : Prop :=
+  prefix q (c_head c) \/ prefix q (c_alt c) \/ prefix q (tmproot c).
+
+(* the object's path lies where its temp attribute says *)
+Definition good (c : config) (st : filer) : Prop :=
+  match f_path st with
+  | None => True
+  | Some p =>
+    if f_temp st then (exists x, f_tmp st = tmproot c ++ [x]) /\ inside (f_tmp st) p
+    else inside (c_head c) p \/ inside (c_alt c) p
+  end.
+
+(* what a clear of this object may touch *)
+Definition scope (st : filer) (q : path) : Prop :=
+  match f_path st with
+  | None => False
+  | Some p => if f_temp st then prefix (f_tmp st) q else prefix p q
+  end.
+
+Lemma snoc_not_prefix : forall (a : path) x q, prefix (a ++ [x]) q -> prefix q a -> False.
+Proof.
+  intros a x q P1 P2. eapply prefix_inside_absurd; [exact (prefix_trans _ _ _ P1 P2)|].
+  exists x, []. reflexivity.
+Qed.
+
+Lemma inside_prefix_trans : forall a b c, inside a b -> prefix b c -> inside a c.
+Proof. exact inside_trans. Qed.
+
+Lemma root_not_scope : forall c w st q, env_all c w -> good c st -> is_root c q -> ~ scope st q.
+Proof.
+  intros c w st q E G R S. unfold good, scope in *. destruct (f_path st) as [p|]; auto.
+  destruct (f_temp st).
+  - destruct G as [(x & Hx) Hin]. rewrite Hx in S.
+    destruct R as [R|[R|R]].
+    + apply (proj2 (ea_ht c w E)). apply prefix_trans with (tmproot c ++ [x]); [now exists [x]|].
+      eapply prefix_trans; eauto.
+    + apply (proj2 (ea_at c w E)). apply prefix_trans with (tmproot c ++ [x]); [now exists [x]|].
+      eapply prefix_trans; eauto.
+    + eapply snoc_not_prefix; eauto.
+  - assert (K : forall r r', inside r p -> prefix q r' -> inside r r').
+    { intros r r' Hi Hr. eapply inside_trans; [exact Hi|]. eapply prefix_trans; eauto. }
+    destruct G as [G|G]; destruct R as [R|[R|R]].
+    + eapply inside_inside_absurd; eapply K; eauto.
+    + apply (proj1 (ea_ha c w E)). apply inside_prefix. eapply K; eauto.
+    + apply (proj1 (ea_ht c w E)). apply inside_prefix. eapply K; eauto.
+    + apply (proj2 (ea_ha c w E)). apply inside_prefix. eapply K; eauto.
+    + eapply inside_inside_absurd; eapply K; eauto.
+    + apply (proj1 (ea_at c w E)). apply inside_prefix. eapply K; eauto.
+Qed.
+
+Lemma root_not_Q : forall c w t clean fx x q,
+  env_all c w -> is_root c q -> ~ Qof (cfg_with c t clean fx (tmproot c ++ [x])) q.
+Proof.
+  intros c w t clean fx x q E R HQ. unfold Qof in HQ. simpl in HQ. destruct t.
+  - destruct R as [R|[R|R]].
+    + apply (proj2 (ea_ht c w E)). apply prefix_trans with (tmproot c ++ [x]); [now exists [x]|].
+      eapply prefix_trans; eauto.
+    + apply (proj2 (ea_at c w E)). apply prefix_trans with (tmproot c ++ [x]); [now exists [x]|].
+      eapply prefix_trans; eauto.
+    + eapply snoc_not_prefix; eauto.
+  - destruct HQ as [HQ|HQ]; destruct R as [R|[R|R]].
+    + eapply prefix_inside_absurd; eauto.
+    + apply (proj1 (ea_ha c w E)). apply inside_prefix. eapply inside_trans; eauto.
+    + apply (proj1 (ea_ht c w E)). apply inside_prefix. eapply inside_trans; eauto.
+    + apply (proj2 (ea_ha c w E)). apply inside_prefix. eapply inside_trans; eauto.
+    + eapply prefix_inside_absurd; eauto.
+    + apply (proj1 (ea_at c w E)). apply inside_prefix. eapply inside_trans; eauto.
+Qed.
+
+Lemma env_all_step : forall c (P : path -> Prop) w w',
+  env_all c w -> step_ok P w w' -> (forall q, is_root c q -> ~ P q) -> env_all c w'.
+Proof.
+  intros c P w w' E [_ K] N. destruct E. constructor; auto; intros q Hq; apply K; auto; apply N; unfold is_root; auto.
+Qed.
+
+Lemma inside_snoc_prefix : forall (a : path) x q, inside q (a ++ [x]) -> prefix q a.
+Proof.
+  intros a x q (s & r & H). destruct r as [|y r] using rev_ind.
+  - apply app_inj_tail in H. destruct H as [-> _]. apply prefix_refl.
+  - rewrite app_comm_cons, app_assoc in H. apply app_inj_tail in H. destruct H as [-> _]. now exists (s :: r).
+Qed.
+
+Lemma env_of_all : forall c w t clean fx x,
+  env_all c w -> env (cfg_with c t clean fx (tmproot c ++ [x])) w.
+Proof.
+  intros c w t clean fx x E. destruct E. constructor; simpl; auto.
+  - intros q Hq. apply ea_tmp0. eapply inside_snoc_prefix; eauto.
+  - intro H. apply (proj1 ea_ha0). now apply inside_prefix.
+  - intro H. apply (proj2 ea_ha0). now apply inside_prefix.
+Qed.
+
+Definition hop_cfg (c : config) (st : filer) (h : hop) : config :=
+  match h with
+  | HReopen temp fext _ _ clean =>
+    cfg_with c (match temp with Some b => b | None => f_temp st end) clean
+             (match fext with Some s => s | None => f_fext st end) (tmp_dir c (f_next st))
+  | HClose _ => cfg_with c (f_temp st) false (f_fext st) (tmp_dir c (f_next st))
+  end.
+
+Lemma clear_st_step : forall c st w r w0,
+  good c st -> clear_st c st w = (r, w0) -> step_ok (scope st) w w0.
+Proof.
+  intros c st w r w0 G H. unfold clear_st, good, scope in *.
+  destruct (f_path st) as [p|]; [|inversion H; subst; apply step_refl].
+  assert (Hin : c_temp (cfg_with c (f_temp st) false (f_fext st) (f_tmp st)) = true ->
+                inside (c_tmp (cfg_with c (f_temp st) false (f_fext st) (f_tmp st))) p).
+  { simpl. intros Et. rewrite Et in G. tauto. }
+  pose proof (clear_effects _ p w r w0 Hin H) as S. unfold Cof in S. simpl in S. exact S.
+Qed.
+
+Lemma tmp_dir_snoc : forall c k, exists x, tmp_dir c k = tmproot c ++ [x].
+Proof. intros. unfold tmp_dir, tmproot. eexists. reflexivity. Qed.
+
+Theorem hop_ok : forall c st h w r st' w',
+  env_all c w -> good c st -> run_hop c st h w = (r, st', w') ->
+  exists w0,
+    step_ok (scope st) w w0 /\                       (* the close(clear) part, under the OLD attributes *)
+    step_ok (Qof (hop_cfg c st h)) w0 w' /\          (* the remake part, under the new ones *)
+    env_all c w' /\ (r = Ok tt -> good c st').
+Proof.
+  intros c st h w r st' w' E G H.
+  assert (NS : forall q, is_root c q -> ~ scope st q) by (intros; eapply root_not_scope; eauto).
+  destruct h as [temp fext cl reuse clean | cl]; simpl in H.
+  - (* reopen *)
+    set (cs := if cl then clear_st c st w else (Ok tt, w)) in *.
+    assert (S0 : step_ok (scope st) w (snd cs)).
+    { unfold cs. destruct cl; [|apply step_refl].
+      destruct (clear_st c st w) as [r0 w0] eqn:Ec. simpl. eapply clear_st_step; eauto. }
+    destruct cs as [r0 w0]. simpl in S0.
+    assert (E0 : env_all c w0) by (eapply env_all_step; eauto).
+    exists w0. split; auto.
+    destruct r0 as [u|k]; [|inversion H; subst; split; [apply step_refl|split; [auto|discriminate]]].
+    set (t := match temp with Some b => b | None => f_temp st end) in *.
+    set (fx := match fext with Some s => s | None => f_fext st end) in *.
+    destruct (tmp_dir_snoc c (f_next st)) as [x Hx].
+    destruct (match f_path st with
+              | Some p => exists_ (w_fs w0) p && (reuse && Bool.eqb t (f_temp st))
+              | None => false end) eqn:Ek.
+    + (* the existing path is kept *)
+      destruct (f_path st) as [p|] eqn:Ep; [|discriminate].
+      apply andb_true_iff in Ek. destruct Ek as [Ex Er]. apply andb_true_iff in Er. destruct Er as [_ Et].
+      apply eqb_prop in Et.
+      assert (G1 : good c {| f_path := Some p; f_temp := t; f_fext := fx; f_tmp := f_tmp st; f_next := f_next st |}).
+      { unfold good in *. rewrite Ep in G. simpl. rewrite Et. exact G. }
+      destruct (c_filed c).
+      * destruct (ocfn w0 p) as [w1|k] eqn:Eo; inversion H; subst; clear H.
+        -- assert (S1 : step_ok (Qof (cfg_with c t clean fx (tmp_dir c (f_next st)))) w0 w').
+           { eapply ocfn_step; eauto. intros Hn. congruence. }
+           split; [exact S1|split; [|auto]]. eapply env_all_step; eauto. intros q Hq. rewrite Hx. eapply root_not_Q; eauto.
+        -- (split; [apply step_refl|split; [auto|discriminate]]).
+      * inversion H; subst; clear H. split; [apply step_refl|split; auto].
+    + (* remake under the new attributes *)
+      set (c' := cfg_with c t clean fx (tmp_dir c (f_next st))) in *.
+      assert (E1 : env c' w0) by (unfold c'; rewrite Hx; now apply env_of_all).
+      destruct (remake c' w0) as [[p|k] w1] eqn:Er; inversion H; subst; clear H.
+      * pose proof (remake_effects c' w0 _ _ E1 Er) as S1.
+        split; [exact S1|split].
+        -- eapply env_all_step; eauto. intros q Hq. unfold c'. rewrite Hx. eapply root_not_Q; eauto.
+        -- intros _. pose proof (remake_path c' w0 p w' Er) as P. unfold good. simpl.
+           unfold c' in P. simpl in P. destruct t.
+           ++ split; [rewrite Hx; now exists x|]. eapply tail_inside; eauto.
+           ++ destruct P as [P|P]; [left|right]; eapply tail_inside; eauto.
+      * pose proof (remake_effects c' w0 _ _ E1 Er) as S1.
+        split; [exact S1|split; [|discriminate]].
+        eapply env_all_step; eauto. intros q Hq. unfold c'. rewrite Hx. eapply root_not_Q; eauto.
+  - (* close *)
+    destruct cl.
+    + destruct (clear_st c st w) as [r0 w0] eqn:Ec. inversion H; subst; clear H.
+      pose proof (clear_st_step c st' w r w' G Ec) as S0.
+      exists w'. split; [exact S0|split; [apply step_refl|split; [eapply env_all_step; eauto|auto]]].
+    + inversion H; subst. exists w'. split; [apply step_refl|split; [apply step_refl|split; auto]].
+Qed.
+
+(* the object right after a successful constructor is good *)
+Lemma born_good : forall c w p w',
+  c_tmp c <> [] -> remake c w = (Ok p, w') -> good c (born c p).
+Proof.
+  intros c w p w' Hn H. pose proof (remake_path c w p w' H) as P. unfold good, born. simpl.
+  destruct (c_temp c).
+  - split; [|eapply tail_inside; eauto].
+    unfold tmproot, dirname. exists (last (c_tmp c) []). now apply app_removelast_last.
+  - destruct P as [P|P]; [left|right]; eapply tail_inside; eauto.
+Qed.
+
+(* every call of every history: what it may touch *)
+Fixpoint hist_ok (c : config) (st : filer) (hs : list hop) (w : world) : Prop :=
+  match hs with
+  | [] => True
+  | h :: hs' =>
+    let '(r, st', w') := run_hop c st h w in
+    (exists w0, step_ok (scope st) w w0 /\ step_ok (Qof (hop_cfg c st h)) w0 w') /\
+    (r = Ok tt -> hist_ok c st' hs' w')
+  end.
+
+Theorem history_ok : forall c hs st w, env_all c w -> good c st -> hist_ok c st hs w.
+Proof.
+  intros c hs. induction hs as [|h hs IH]; intros st w E G; simpl; auto.
+  destruct (run_hop c st h w) as [[r st'] w'] eqn:Eh.
+  destruct (hop_ok c st h w r st' w' E G Eh) as (w0 & S0 & S1 & E' & G').
+  split; [now exists w0|]. intros Hr. apply IH; auto.
+Qed.
+
+Lemma constructor_env_all : forall c w r w',
+  env_all c w -> c_tmp c <> [] -> remake c w = (r, w') -> env_all c w'.
+Proof.
+  intros c w r w' E Hn H.
+  assert (Hx : c_tmp c = tmproot c ++ [last (c_tmp c) []]) by (unfold tmproot, dirname; now apply app_removelast_last).
+  assert (E1 : env c w).
+  { pose proof (env_of_all c w (c_temp c) (c_clean c) (c_fext c) (last (c_tmp c) []) E) as E1.
+    destruct E1. constructor; simpl in *; auto. now rewrite Hx. }
+  pose proof (remake_effects c w r w' E1 H) as S.
+  eapply env_all_step; eauto. intros q Hq HQ.
+  apply (root_not_Q c w (c_temp c) (c_clean c) (c_fext c) (last (c_tmp c) []) q E Hq).
+  unfold Qof in *. simpl. now rewrite <- Hx.
+Qed.
+
+Theorem constructor_history_ok : forall c w p w1 hs,
+  env_all c w -> c_tmp c <> [] -> remake c w = (Ok p, w1) -> hist_ok c (born c p) hs w1.
+Proof.
+  intros c w p w1 hs E Hn H. apply history_ok.
+  - eapply constructor_env_all; eauto.
+  - eapply born_good; eauto.
+Qed.
